@@ -477,8 +477,11 @@ Inductive c07_defect :=
   | C07FlattenChildGoJson           (* flatten: the child is written by encoding/json: snake_case keys, 64-bit numbers, {seconds,nanos} *)
   | C07FlatOneofVariantOptional     (* flattened discriminated oneof: the variant's fields are inlined into the branch as REQUIRED
                                        properties, proto3-optional ones included; the wire omits an unset optional field *)
-  | C07FlattenChildOneof            (* flatten child that has a discriminated oneof of its own: the wire carries the child's
-                                       discriminator (and inlined variant), the parent interface only lists the child's plain fields *)
+  | C07FlatOneofVariantGoJson       (* flattened discriminated oneof: the variant is written by encoding/json (snake_case keys, 64-bit
+                                       numbers, {seconds,nanos}); the TS branch declares lowerCamel names, string and string *)
+  | C07FlattenChildOneof            (* flatten child that has a discriminated oneof of its own: the parent interface lists the child's
+                                       fields one by one (oneof members as ordinary, required properties, no discriminator), the wire
+                                       carries the child's codec form (discriminator + variant, or nothing when no member is set) *)
   | C07PathParamString.             (* TS server puts the path parameter string into a number/boolean property *)
 
 Definition c07_defect_str (d : c07_defect) : str :=
@@ -500,6 +503,7 @@ Definition c07_defect_str (d : c07_defect) : str :=
   | C07FlattenChildAbsent => s "flatten-child-absent"
   | C07FlattenChildGoJson => s "flatten-child-go-json"
   | C07FlatOneofVariantOptional => s "flat-oneof-variant-optional-required"
+  | C07FlatOneofVariantGoJson => s "flat-oneof-variant-go-json"
   | C07FlattenChildOneof => s "flatten-child-discriminated-oneof-undeclared"
   | C07PathParamString => s "path-param-string-into-number"
   end.
@@ -582,6 +586,17 @@ Fixpoint val_defects (fuel : nat) (sc : schema) (depth : nat) (tn : str) (m : li
                                 (negb (populated m f) && match f_nullable f with Some true => true | _ => false end)) fs
               && Nat.ltb 0 depth
            then [C07NestedCodecNotApplied] else []) ++
+          (* the same class for codecs that change the SHAPE of the object: below the top level the parent's encoder
+             (protojson) writes the plain proto3 form of a message with a flatten field, a discriminated oneof or an
+             unwrap map value, while the TS declaration of that message is the reshaped one *)
+          (if Nat.ltb 0 depth &&
+              (existsb (fun f => match f_flatten f with Some true => populated m f | _ => false end) fs ||
+               existsb (fun o => existsb (populated m) (variants M o)) (disc_oneofs M) ||
+               (has_unwrap_map_value sc M &&
+                existsb (fun f => match f_card f, f_kind f with
+                                  | MapOf _, KMessage tn => populated m f && match find_unwrap_list sc tn with Some _ => true | None => false end
+                                  | _, _ => false end) fs))
+           then [C07NestedCodecNotApplied] else []) ++
           (if existsb (fun f => negb (populated m f) &&
                                 match f_flatten f, f_kind f with
                                 | Some true, KMessage c =>
@@ -607,10 +622,20 @@ Fixpoint val_defects (fuel : nat) (sc : schema) (depth : nat) (tn : str) (m : li
                                                       | None => false end
                                                   | _, _ => false end) (variants M o)) (disc_oneofs M)
            then [C07FlatOneofVariantOptional] else []) ++
+          (if existsb (fun o => o_flatten o &&
+                                existsb (fun f => match f_kind f, mget m (f_name f) with
+                                                  | KMessage c, Some (FM sub) =>
+                                                      match find_message (all_messages sc) c with
+                                                      | Some cm => existsb (fun g => populated sub g &&
+                                                                                     (negb (str_eqb (json_name (f_name g)) (f_name g)) || is_64 (f_kind g) || is_timestamp (f_kind g)))
+                                                                           (m_fields cm)
+                                                      | None => false end
+                                                  | _, _ => false end) (variants M o)) (disc_oneofs M)
+           then [C07FlatOneofVariantGoJson] else []) ++
           (if existsb (fun f => match f_flatten f, f_kind f, mget m (f_name f) with
                                 | Some true, KMessage c, Some (FM sub) =>
                                     match find_message (all_messages sc) c with
-                                    | Some cm => existsb (fun o => existsb (populated sub) (variants cm o)) (disc_oneofs cm)
+                                    | Some cm => match disc_oneofs cm with [] => false | _ => true end
                                     | None => false end
                                 | _, _, _ => false end) fs
            then [C07FlattenChildOneof] else []) ++
